@@ -77,8 +77,9 @@ type World struct {
 	args      []argRec
 	sargs     []sliceRec
 	backs     []backRec
-	graveyard []*tensor.Dense // dropped tensors, kept reachable (see the Drop operation)
-	adv       bool            // adversarial world: the caller overwrites its argument slices after each call
+	sopts     [4][]tensor.ConsOpt // construction options the program keeps and applies more than once
+	graveyard []*tensor.Dense     // dropped tensors, kept reachable (see the Drop operation)
+	adv       bool                // adversarial world: the caller overwrites its argument slices after each call
 	scribN    uint64
 	step      int
 	client    int // client id (C18), 0 otherwise
